@@ -172,6 +172,7 @@ type Sim struct {
 	maxRun    int
 
 	horizonHit   bool
+	regOverflow  bool
 	stepLimitHit bool
 
 	mu       sync.Mutex // engine-internal, only used under raceDisable
